@@ -55,7 +55,16 @@ pub enum HOp {
 #[derive(Clone, Debug, Serialize, Deserialize)]
 pub enum Stream {
 	Geometry { geo: Geo, relation: u8, aux: [f32; 4] },
-	History { ops: Vec<HOp>, ibs: usize, nested: bool, map_in: (f64, f64) },
+	History {
+		ops: Vec<HOp>,
+		ibs: usize,
+		nested: bool,
+		map_in: (f64, f64),
+		/// the track's probe parameter is linked to the listener distance only at its n-th
+		/// process call, by a set() with a tween of that many seconds
+		#[serde(default)]
+		relink: Option<(u64, f64)>,
+	},
 	/// a spatial track (listener B, emitter e2) inside - optionally through a plain track -
 	/// a spatial track (listener A, emitter e1); the listeners may be dropped
 	Nested { a: [f32; 3], b: [f32; 3], e1: [f32; 3], e2: [f32; 3], drop_a: Option<usize>, drop_b: Option<usize>, callbacks: usize, ibs: usize, mid_plain: bool },
@@ -150,6 +159,7 @@ fn gen_case(seed: u64, index: u64, tier: Tier) -> Case {
 			ibs,
 			nested: rng.chance(0.5),
 			map_in: *rng.pick(&[(0.0, 30.0), (1.0, 10.0), (20.0, 2.0)]),
+			relink: if rng.chance(0.4) { Some((rng.below(4), *rng.pick(&[0.0, 2.0 * unit, 5.0 * unit]))) } else { None },
 		}
 	};
 	Case { seed, stream }
@@ -346,16 +356,51 @@ fn run_geometry(geo: &Geo, relation: u8, aux: &[f32; 4], res: &mut CaseResult, t
 struct DistProbe {
 	param: Parameter<f64>,
 	log: Arc<Mutex<Vec<(Option<f32>, f64)>>>,
+	/// (process call at which the parameter is linked to the listener distance with a tween of
+	/// that many seconds, the mapping): until then it is a fixed value
+	relink: Option<(u64, f64, (f64, f64))>,
+	calls: u64,
+	/// seconds since the link was made
+	since: Option<f64>,
 }
+/// Logged instead of a parameter value while the link's own tween is still running.
+const TWEENING: f64 = -12345.0;
 impl Effect for DistProbe {
 	fn process(&mut self, input: &mut [Frame], dt: f64, info: &Info) {
 		let _d = Disarm::new();
+		if let Some((at, dur, map_in)) = self.relink {
+			if self.calls == at {
+				self.param.set(
+					Value::FromListenerDistance(Mapping {
+						input_range: map_in,
+						output_range: (0.0, 1.0),
+						easing: kira::Easing::Linear,
+					}),
+					Tween {
+						duration: std::time::Duration::from_secs_f64(dur),
+						..Default::default()
+					},
+				);
+				self.since = Some(0.0);
+			}
+		}
+		self.calls += 1;
 		self.param.update(dt * input.len() as f64, info);
-		self.log.lock().unwrap().push((info.listener_distance(), self.param.value()));
+		if let Some(s) = self.since.as_mut() {
+			*s += dt * input.len() as f64;
+		}
+		let settled = match (self.relink, self.since) {
+			(None, _) => true,
+			(Some((_, dur, _)), Some(s)) => s > dur + 1e-9,
+			(Some(_), None) => false,
+		};
+		self.log.lock().unwrap().push((info.listener_distance(), if settled { self.param.value() } else { TWEENING }));
 	}
 }
 struct DistProbeBuilder {
 	map_in: (f64, f64),
+	/// link the parameter later, through `Parameter::set` with a tween (as a handle setter does)
+	relink: Option<(u64, f64)>,
 }
 impl EffectBuilder for DistProbeBuilder {
 	type Handle = Arc<Mutex<Vec<(Option<f32>, f64)>>>;
@@ -363,15 +408,21 @@ impl EffectBuilder for DistProbeBuilder {
 		let log = Arc::new(Mutex::new(vec![]));
 		(
 			Box::new(DistProbe {
-				param: Parameter::new(
-					Value::FromListenerDistance(Mapping {
-						input_range: self.map_in,
-						output_range: (0.0, 1.0),
-						easing: kira::Easing::Linear,
-					}),
-					-7.0,
-				),
+				param: match self.relink {
+					None => Parameter::new(
+						Value::FromListenerDistance(Mapping {
+							input_range: self.map_in,
+							output_range: (0.0, 1.0),
+							easing: kira::Easing::Linear,
+						}),
+						-7.0,
+					),
+					Some(_) => Parameter::new(Value::Fixed(-7.0), -7.0),
+				},
 				log: log.clone(),
+				relink: self.relink.map(|(at, dur)| (at, dur, self.map_in)),
+				calls: 0,
+				since: None,
 			}),
 			log,
 		)
@@ -406,7 +457,7 @@ impl Lerp {
 	}
 }
 
-fn run_history(ops: &[HOp], ibs: usize, nested: bool, map_in: (f64, f64), res: &mut CaseResult, trace: &mut Hasher64, beh: &mut Hasher64) {
+fn run_history(ops: &[HOp], ibs: usize, nested: bool, map_in: (f64, f64), relink: Option<(u64, f64)>, res: &mut CaseResult, trace: &mut Hasher64, beh: &mut Hasher64) {
 	let Some(mut m) = manager(ibs) else { return };
 	let device = m.backend_mut().device.clone();
 	let sr = 8000.0f64;
@@ -431,11 +482,11 @@ fn run_history(ops: &[HOp], ibs: usize, nested: bool, map_in: (f64, f64), res: &
 				}
 				let Ok(l) = m.add_listener(Vec3::from(*pos), Quat::IDENTITY) else { continue };
 				let mut b = SpatialTrackBuilder::new().distances((1.0, 50.0)).spatialization_strength(0.0);
-				logs.push(b.add_effect(DistProbeBuilder { map_in }));
+				logs.push(b.add_effect(DistProbeBuilder { map_in, relink }));
 				let Ok(mut t) = m.add_spatial_sub_track(&l, e_model.value, b) else { continue };
 				if nested {
 					let mut cbld = TrackBuilder::new();
-					logs.push(cbld.add_effect(DistProbeBuilder { map_in }));
+					logs.push(cbld.add_effect(DistProbeBuilder { map_in, relink: None }));
 					if let Ok(mut c) = t.add_sub_track(cbld) {
 						let _ = c.play(dc(0.5, 0.5));
 						child = Some(c);
@@ -534,15 +585,18 @@ fn run_history(ops: &[HOp], ibs: usize, nested: bool, map_in: (f64, f64), res: &
 									return;
 								}
 								let amount = ((got as f64 - map_in.0) / (map_in.1 - map_in.0)).clamp(0.0, 1.0);
-								if (param - amount).abs() > 1e-6 {
+								if param == TWEENING {
+									// (not linked yet, or the link's own tween is still running)
+								} else if (param - amount).abs() > 1e-6 {
 									res.fail(Violation::new(
 										"linked-distance",
 										"linked-parameter-does-not-follow-distance",
-										format!("op {oi} (callback {cb}) chunk {k}: distance {got} maps to {amount} through {map_in:?}, the parameter is {param}"),
+										format!("op {oi} (callback {cb}) chunk {k}: distance {got} maps to {amount} through {map_in:?}, the parameter is {param}{}", if pi == 0 && relink.is_some() { " (linked by set() with a tween, which is over)" } else { "" }),
 									));
 									return;
+								} else {
+									res.hit(if pi == 0 && relink.is_some() { "distance_links_checked_after_set_with_tween" } else { "distance_links_checked" });
 								}
-								res.hit("distance_links_checked");
 							}
 							(None, Some(got)) => {
 								res.fail(Violation::new("needs-listener", "distance-without-listener", format!("op {oi} (callback {cb}): no listener exists but effect {pi} sees distance {got}")));
@@ -599,10 +653,10 @@ fn run_nested(a: [f32; 3], b: [f32; 3], e1: [f32; 3], e2: [f32; 3], drop_a: Opti
 		let la = m.add_listener(Vec3::from(a), Quat::IDENTITY).unwrap();
 		let lb = m.add_listener(Vec3::from(b), Quat::IDENTITY).unwrap();
 		let mut ob = SpatialTrackBuilder::new().distances((1.0, 60.0)).spatialization_strength(0.0);
-		let outer_log = ob.add_effect(DistProbeBuilder { map_in });
+		let outer_log = ob.add_effect(DistProbeBuilder { map_in, relink: None });
 		let mut outer = m.add_spatial_sub_track(&la, Vec3::from(e1), ob).unwrap();
 		let mut ib = SpatialTrackBuilder::new().distances((1.0, 60.0)).spatialization_strength(0.0);
-		let inner_log = ib.add_effect(DistProbeBuilder { map_in });
+		let inner_log = ib.add_effect(DistProbeBuilder { map_in, relink: None });
 		let (mid, mut inner) = if mid_plain {
 			let mut mid = outer.add_sub_track(TrackBuilder::new()).unwrap();
 			let inner = mid.add_spatial_sub_track(&lb, Vec3::from(e2), ib).unwrap();
@@ -611,7 +665,7 @@ fn run_nested(a: [f32; 3], b: [f32; 3], e1: [f32; 3], e2: [f32; 3], drop_a: Opti
 			(None, outer.add_spatial_sub_track(&lb, Vec3::from(e2), ib).unwrap())
 		};
 		let mut gb = TrackBuilder::new();
-		let grand_log = gb.add_effect(DistProbeBuilder { map_in });
+		let grand_log = gb.add_effect(DistProbeBuilder { map_in, relink: None });
 		let mut grand = inner.add_sub_track(gb).unwrap();
 		grand.play(dc(0.5, 0.5)).unwrap();
 		(m, la, lb, outer, mid, inner, grand, outer_log, inner_log, grand_log)
@@ -704,8 +758,8 @@ pub fn run_case(case: &Case) -> CaseResult {
 			beh.u64(*relation as u64);
 			beh.u64(trace.finish());
 		}
-		Stream::History { ops, ibs, nested, map_in } => {
-			run_history(ops, *ibs, *nested, *map_in, &mut res, &mut trace, &mut beh);
+		Stream::History { ops, ibs, nested, map_in, relink } => {
+			run_history(ops, *ibs, *nested, *map_in, *relink, &mut res, &mut trace, &mut beh);
 			beh.u64(*nested as u64);
 		}
 	}
@@ -749,11 +803,11 @@ impl Check for C15 {
 	fn shrink(&self, case: &Json) -> Vec<Json> {
 		let c: Case = serde_json::from_value(case.clone()).unwrap();
 		let mut out = vec![];
-		if let Stream::History { ops, ibs, nested, map_in } = &c.stream {
+		if let Stream::History { ops, ibs, nested, map_in, relink } = &c.stream {
 			let wrapped = serde_json::json!({ "ops": ops });
 			for v in shrink_ops_array(&wrapped, "ops") {
 				let ops: Vec<HOp> = serde_json::from_value(v["ops"].clone()).unwrap();
-				out.push(serde_json::to_value(Case { stream: Stream::History { ops, ibs: *ibs, nested: *nested, map_in: *map_in }, ..c.clone() }).unwrap());
+				out.push(serde_json::to_value(Case { stream: Stream::History { ops, ibs: *ibs, nested: *nested, map_in: *map_in, relink: *relink }, ..c.clone() }).unwrap());
 			}
 		}
 		out
